@@ -536,6 +536,16 @@ func TestVerif_C19_BuildTotality(t *testing.T) {
 			_ = build()
 		}()
 	}
+	// a field that opts out with an explicitly empty parser tag next to other keys is not part of the grammar
+	res.Evaluations++
+	res.Distinct++
+	if _, err := Build[struct {
+		A string `@Ident`
+		C string `parser:"" json:"comment"`
+		B string `parser:"@Ident" json:"b"`
+	}](); err != nil {
+		res.violate("Build rejected a grammar with a field tagged `parser:\"\" json:\"comment\"`: %v", firstLineOf(err))
+	}
 	close(done)
 	res.sample(fmt.Sprintf("classes decided by the reference recogniser: %v", classes))
 	res.emit(t)
